@@ -134,6 +134,7 @@ func (f *Frame) execInstr(in ssa.Instruction, st *State, reach Term) {
 			if len(sent) > 0 {
 				f.checkSites(in, st, reach, sent)
 			}
+			f.recordReached(in, reach)
 		}
 		c.note("select statement: nondeterministic choice, received values havocked")
 		tup := in.Type().(*types.Tuple)
@@ -189,6 +190,7 @@ func (f *Frame) execInstr(in ssa.Instruction, st *State, reach Term) {
 		c.set(st, ln, tStore(lcur, m, tIte(was, l0, c.iadd(l0, c.intConst(1, c.I())))))
 	case *ssa.Send:
 		f.checkSites(in, st, reach, []Val{f.valTyped(in.X)})
+		f.recordReached(in, reach)
 	case *ssa.Go:
 		var args []Val
 		for _, a := range in.Call.Args {
